@@ -39,8 +39,14 @@ FORMS = {
 def host_of(form: str, i: int) -> str:
     """The i-th configured address of the given form (distinct per position so that answers can be told apart)."""
     return FORMS[form].format(n=i + 1)
+# names mDNS cannot carry (a label longer than 63 bytes in UTF-8): no mDNS lookup is possible, the OS resolver is asked
+FORMS_UNNAMEABLE = {
+    "barelong": "k" * 63 + "{n}",
+    "localidn": "датчик-температуры-в-гостиной-комнате{n}.local",
+}
+FORMS.update(FORMS_UNNAMEABLE)
 LITERAL = {"v4lit", "v6lit", "v6scope"}
-LOCALISH = {"bare", "local", "localdot"}
+LOCALISH = {"bare", "local", "localdot", "barelong", "localidn"}
 MDNS = ("v4", "v6", "both", "none", "error", "v4-partial")  # v4-partial: the address records are known, the SRV/TXT answers never came (the request reports failure)
 OS = ("v4", "v6v4", "empty", "error")
 
@@ -102,7 +108,9 @@ def ref_resolve(forms: tuple[str, ...], mdns: tuple[str, ...], osans: tuple[str,
         elif f == "v6scope":
             got = [(socket.AF_INET6, host.partition("%")[0], PORT, 0, 3)]
         else:
-            if f in LOCALISH:
+            if f in FORMS_UNNAMEABLE:
+                mdns_error = True
+            elif f in LOCALISH:
                 want_mdns.append(host.partition(".")[0])
                 if mdns[i] == "error":
                     mdns_error = True
@@ -141,11 +149,12 @@ def run_resolution(args: tuple[int, int, int]) -> dict[str, Any]:
     try:
         import aioesphomeapi.host_resolver as hr
 
+        
         combos = list(itertools.product(FORMS, repeat=length))
         for ci, forms in enumerate(combos):
             if ci % nshards != shard:
                 continue
-            m_axes = [MDNS if f in LOCALISH else ("-",) for f in forms]
+            m_axes = [("none",) if f in FORMS_UNNAMEABLE else MDNS if f in LOCALISH else ("-",) for f in forms]
             for mdns in itertools.product(*m_axes):
                 o_axes = []
                 for f, m in zip(forms, mdns):
@@ -154,7 +163,7 @@ def run_resolution(args: tuple[int, int, int]) -> dict[str, Any]:
                 for osans in itertools.product(*o_axes):
                     ref = ref_resolve(forms, mdns, osans)
                     hosts = [host_of(f, i) for i, f in enumerate(forms)]
-                    by_name = {host_of(f, i).partition(".")[0]: (i, mdns[i]) for i, f in enumerate(forms) if f in LOCALISH}
+                    by_name = {host_of(f, i).partition(".")[0]: (i, mdns[i]) for i, f in enumerate(forms) if f in LOCALISH and f not in FORMS_UNNAMEABLE}
                     by_host = {host_of(f, i): (i, osans[i]) for i, f in enumerate(forms)}
                     w.zlog.requests.clear()
                     del w.net.gai_calls[:]
@@ -221,7 +230,7 @@ def run_resolution(args: tuple[int, int, int]) -> dict[str, Any]:
                             add(f"resolve:empty:{shape}", f"{hosts} (mDNS {mdns}, OS {osans}): nothing resolves but the call returned {val!r}")
                         elif not isinstance(val, APIConnectionError):
                             add(f"resolve:error-class:{shape}", f"{hosts}: nothing resolves, raised {type(val).__name__} (not a connection error)")
-                        elif ref["mdns_error"] and not (isinstance(val, ResolveAPIError) and "mdns exploded" in str(val)):
+                        elif ref["mdns_error"] and not any(f in FORMS_UNNAMEABLE for f in forms) and not (isinstance(val, ResolveAPIError) and "mdns exploded" in str(val)):
                             add(f"resolve:mdns-error-lost:{shape}", f"{hosts}: nothing resolves after an mDNS error, but the error raised is {val!r}")
                         continue
                     if kind != "ok":
